@@ -241,12 +241,12 @@ EXTRA10 = {
 EXTRA11 = {
  "C01": " Round 11: no latitude of a cell centre is taken as asin of a coordinate.",
  "C02": " Round 11: stableSign declines when its error bound underflowed (D50 repaired).",
- "C03": " Round 11: stableSign declines when its error bound underflowed (D50 repaired).",
+ "C03": " Round 11: stableSign declines when its error bound underflowed (D50 repaired); the stateless CrossingSign holds no geometry of its own.",
  "C04": " Round 11: Polygon.iteratorContainsPoint does not walk its clipped edges as a vertex chain; ContainsPoint of the antipode of the reference origin is a known finding (D61).",
- "C05": " Round 11: replaceCellsWithAncestor searches with >= RangeMin and normalizeCovering recomputes with the caller's parameters (D53, D54 repaired).",
+ "C05": " Round 11: closed predicates do not pre-filter with Interior* interval tests; replaceCellsWithAncestor searches with >= RangeMin and normalizeCovering recomputes with the caller's parameters (D53, D54 repaired).",
  "C06": " Round 11: Polygon.iteratorContainsPoint does not walk its clipped edges as a vertex chain; D61 is a known finding here too.",
  "C07": " Round 11: Polygon.Contains reads its argument's bound through RectBound (D52 repaired).",
- "C08": " Round 11: the conservative limits end in Successor / Predecessor (D51 repaired).",
+ "C08": " Round 11: the conservative limits end in Successor / Predecessor (D51 repaired); the furthest side bounds by the supplement; initial ranges are built from cloned iterators.",
  "C09": " Round 11: the cell-centre test distinguishes signed zeros, the CellUnion encoder enforces the decoder's limit, the zero Polygon's bound is empty (D45-D47 repaired).",
  "C10": " Round 11: Rect.CapBound pads its pole cap and grows its centre cap to all four vertices (D48 repaired); the zero Polygon's bound is empty (D47).",
  "C15": " Round 11: Rect.decode validates and the vertex decoders test for unit length (D57, D58 repaired).",
